@@ -51,6 +51,8 @@ type Env struct {
 	tail      bool
 	ownAssume []*Term
 	ownAuto   func() []*Term
+	frameAuto func(mem bool, maps []string) *Term
+	key       string
 	noSplit   bool
 	fnPkg     string // package of the function under verification (invariants of its types are concrete)
 	forceConcreteInv bool
@@ -97,6 +99,8 @@ type Env struct {
 type inlineFrame struct {
 	lit     bool
 	retB    *Block
+	frameAuto func(mem bool, maps []string) *Term
+	key     string
 	results []string
 	resObs  []types.Object
 	sig     *types.Signature
